@@ -4,6 +4,8 @@
 (*  "inst": [W, H, items, tok: [head, items] (tokens of the compact string),*)
 (*           name_ok, orig, back]  orig/back: [W,H,items,n_items,area,lb,   *)
 (*           dtype] projections of the original / re-parsed instance       *)
+(*  "packlib": [W, H, items, name_ok, ok, orig, back] a 2DPackLib file of the *)
+(*           instance read by from_2dpacklib                                *)
 (*  "rows": [what, orig (matrix), tok (flat tokens of the first/only text   *)
 (*           part), back (matrix), ok]                                      *)
 (*  "csv" : [what, orig: <<record>>, back: <<record>>] a record is a        *)
@@ -25,6 +27,18 @@ Inst(c) ==
               ELSE IF c.back.dtype # c.orig.dtype THEN "dtype"
               ELSE IF c.back.lb # c.orig.lb THEN "lower-bound" ELSE "derived")}
         ELSE {})
+\* a 2DPackLib file (written by the driver: "n / W H / id w h [demand]" lines, items in any order) read by
+\* Instance.from_2dpacklib must give the instance built directly from the same (sorted) data
+PackLib(c) ==
+  (IF c.orig.n_items # SumReps(c.items, 1) \/ c.orig.area # SumArea(c.items, 1) THEN {"derived-attributes"} ELSE {})
+  \cup (IF c.name_ok # 1 THEN {"instance-name"} ELSE {})
+  \cup (IF c.ok # 1 THEN {"2dpacklib-file-not-parsable"}
+        ELSE IF c.back # c.orig THEN
+          {"2dpacklib-round-trip:" \o
+             (IF c.back.items # c.orig.items \/ c.back.W # c.orig.W \/ c.back.H # c.orig.H THEN "data"
+              ELSE IF c.back.dtype # c.orig.dtype THEN "dtype"
+              ELSE IF c.back.lb # c.orig.lb THEN "lower-bound" ELSE "derived")}
+        ELSE {})
 Rows(c) ==
   (IF c.tok # Flatten(c.orig) THEN {"text-not-flattened-matrix:" \o c.what} ELSE {})
   \cup (IF c.ok # 1 THEN {"text-not-parsable:" \o c.what}
@@ -41,6 +55,7 @@ Csv(c) ==
   ELSE UNION {LET d == RecDiff(c.orig[k], c.back[k]) IN IF d = "same" THEN {} ELSE {"csv-" \o c.what \o "-" \o d}
               : k \in 1..Len(c.orig)}
 Verdict(c) == CASE c.kind = "inst" -> Inst(c) [] c.kind = "rows" -> Rows(c) [] c.kind = "csv" -> Csv(c)
+                [] c.kind = "packlib" -> PackLib(c)
 Init == tid = 0
 Next == /\ tid < NCases /\ tid' = tid + 1
         /\ PrintT(<<"V", Cases[tid'].id, Verdict(Cases[tid'])>>)
